@@ -1352,7 +1352,7 @@ Qed.
 
 Theorem model_trace_holds cfg ops : exists obs, run cfg ops = Some obs /\ holds_b cfg ops obs = true.
 Proof.
-  exists (snd (run_from cfg init ops)). split; [reflexivity|].
+  exists (snd (run_from cfg init (expand ops))). split; [reflexivity|].
   unfold holds_b, clauses. apply clauses_from_ok. exact Inv_init.
 Qed.
 
